@@ -127,7 +127,6 @@ _COUNTER = [0]
 
 
 def impl_res(c, tmpdir, kind_of, enc):
-    sys.path  # (audiolazy is importable: common.REPO is first on sys.path)
     from audiolazy import WavStream
     blob = riff_bytes(c)
     _COUNTER[0] += 1
